@@ -30,3 +30,38 @@ type Post struct {
 	CreatedAt time.Time
 	UpdatedAt time.Time
 }
+
+// ---- association graph (belongs-to, has-one, has-many); many-to-many needs
+// reflect.StructOf and is outside every claim.
+
+type Company struct {
+	ID   uint
+	Name string
+}
+
+type Profile struct {
+	ID      uint
+	OwnerID uint
+	Bio     string
+}
+
+type Pet struct {
+	ID      uint
+	OwnerID uint
+	Name    string
+}
+
+type Owner struct {
+	ID        uint
+	Name      string
+	CompanyID *uint
+	Company   *Company
+	Profile   Profile
+	Pets      []Pet
+}
+
+// String primary key (not auto-increment).
+type Tagged struct {
+	Code string `gorm:"primaryKey"`
+	Name string
+}
